@@ -118,6 +118,23 @@ def _replay_blocks(blocks):
             if badu:
                 viol.append((badu + ' (loads expressed in a 2^30 times larger unit)', {'sequence': list(s), 'load_unit_factor': UNIT}, {'periodic_cycles': sorted(per)},
                              [(r['loads_min'], r['loads_max'], r['closed'], r['run']) for r in pu.get('rows', [])] if 'rows' in pu else pu))
+        if n % 5 == 0 and not bad:
+            # the same history for two proportional points at once, load steps labelled in DEScending order and node ids not ascending:
+            # what is counted for a point must not depend on the labels
+            try:
+                det = hcm.two_pass_multi(s, [1, 2], 'lin', node_ids=[5, 3], labels=list(range(len(s)))[::-1])
+                pm = hcm.project(det, 2)
+                for pt, sc in ((0, 1), (1, 2)):
+                    rows = [{'loads_min': r['loads_min'][pt] // sc if r['loads_min'][pt] % sc == 0 else r['loads_min'][pt] / sc,
+                             'loads_max': r['loads_max'][pt] // sc if r['loads_max'][pt] % sc == 0 else r['loads_max'][pt] / sc,
+                             'closed': r['closed'][pt], 'run': r['run'][pt]} for r in pm['rows']]
+                    badm = c04_verdict({'rows': rows}, per)
+                    if badm:
+                        viol.append((badm + ' (two proportional points at once, load steps labelled in descending order)', {'sequence': list(s), 'point': pt, 'load_step_labels': list(range(len(s)))[::-1]},
+                                     {'periodic_cycles': sorted(per)}, [(r['loads_min'], r['loads_max'], r['closed'], r['run']) for r in rows]))
+                        break
+            except Exception as ex:
+                viol.append(('two-point two-pass run raised %r' % ex, {'sequence': list(s)}, None, None))
         if len(per) >= 2:
             nontriv.append(s)
         if not samples and len(per) >= 3:
